@@ -99,6 +99,14 @@ class ExcVal:
         self.cls, self.msg = cls, msg
 
 
+class Opaque:
+    """a value the verified code never inspects (wall-clock time stamps): arithmetic on it stays opaque, a method call on
+    it yields an unconstrained real"""
+
+    def __init__(self, what):
+        self.what = what
+
+
 class Poison:
     def __init__(self, why):
         self.why = why
